@@ -103,6 +103,12 @@ Proof. exact table_nontrivial. Qed.
 Example C18_hypotheses_satisfiable : compositional erase erase_alg /\ await_transparent erase_alg.
 Proof. exact (conj erase_compositional erase_alg_transparent). Qed.
 
+(* all hypotheses of C18_canon_preserves / C18_twins_denote_equal are jointly satisfiable by a
+   non-constant semantics: "does literal k occur in the tree" *)
+Example C18_all_hypotheses_satisfiable : forall k,
+  compositional (has_lit k) has_lit_alg /\ await_transparent has_lit_alg /\ seq_rewrites_sound (has_lit k) has_lit_alg.
+Proof. exact has_lit_instance. Qed.
+
 (* `async def f(self): return await self.g()`  erases to  `def f(self): return self.g()`;
    the comparison sees a changed index:  x[0] vs x[1] *)
 Example C18_example :
